@@ -138,7 +138,7 @@ Qed.
 
 (* for every pattern: the wrapped text cannot close the wrapping group *)
 Theorem inside_group_never_closes : forall p, closed_early QT 0 (inside_group true true false false false p) = false.
-Proof. intros p. unfold inside_group. now apply (wrap_safe_len (length (spelled true false false false p))). Qed.
+Proof. intros p. unfold inside_group. now apply (wrap_safe_len (length (spelled true true false false false p))). Qed.
 
 (* emacs (no extended groups, no character classes, no newline alternation): only what follows a backslash is ever rewritten *)
 Definition plain_state (q : wst) : Prop := match q with WT false => True | WB _ _ => True | _ => False end.
@@ -247,8 +247,21 @@ Proof.
             + change (c_bs =? c_bs) with true. cbv iota. cbn [pre]. change (c_lbrace =? c_lp) with false.
               change (c_lbrace =? c_bar) with false. change (c_lbrace =? c_lbrace) with true. cbn [orb]. cbv iota.
               cbn [app]. now rewrite IH.
-          - cbn [pre]. change (c_bs =? c_bs) with true. cbv iota. cbn [pre]. change (c_lbrace =? c_lp) with false.
-            change (c_lbrace =? c_bar) with false. change (c_lbrace =? c_lbrace) with true. cbn [orb]. cbv iota. now rewrite IH. }
+          - (* an interval: its lower bound is written if it is missing; read again, it is there *)
+            assert (Hstep : forall t, pre gb pq nl (PT false an) (c_bs :: c_lbrace :: t) = c_bs :: c_lbrace :: open_bound t ++ pre gb pq nl (PI false) t).
+            { intros t. cbn [pre]. change (c_bs =? c_bs) with true. cbv iota. cbn [pre]. change (c_lbrace =? c_lp) with false.
+              change (c_lbrace =? c_bar) with false. change (c_lbrace =? c_lbrace) with true. cbn [orb]. cbv iota. reflexivity. }
+            cbv iota. rewrite Hstep. do 2 f_equal.
+            destruct s2 as [|x s3]; [reflexivity|].
+            assert (Hi : pre gb pq nl (PI false) (pre gb pq nl (PI false) (x :: s3)) = pre gb pq nl (PI false) (x :: s3))
+              by (apply IH; [exact Hl2|exact I]).
+            assert (Hh : exists t, pre gb pq nl (PI false) (x :: s3) = x :: t) by (cbn [pre andb]; now eexists).
+            destruct Hh as (t & Et). rewrite Et in *.
+            assert (Hpi : forall u, pre gb pq nl (PI false) (48 :: u) = 48 :: pre gb pq nl (PI false) u)
+              by (intros u; cbn [pre andb]; change (48 =? c_bs) with false; reflexivity).
+            unfold open_bound at 3. unfold open_bound at 2. destruct (x =? 44) eqn:Ex.
+            + cbn [app]. unfold open_bound. change (48 =? 44) with false. cbv iota. cbn [app]. rewrite Hpi. rewrite ?Ex. cbn [app]. now rewrite Hi.
+            + cbn [app]. unfold open_bound. rewrite ?Ex. cbn [app]. exact Hi. }
         destruct (pq && negb st && (c2 =? c_plus)) eqn:E3.
         { apply andb_true_iff in E3 as [E3 _]. apply andb_true_iff in E3 as [_ E3]. apply negb_true_iff in E3. subst st.
           cbn [app pre]. change (c_bs =? c_bs) with true. cbv iota. cbn [pre orb andb]. cbn [pre]. now rewrite IH. }
@@ -281,3 +294,24 @@ Proof.
 Qed.
 Theorem spell_idempotent gb pq nl p : spell gb pq nl (spell gb pq nl p) = spell gb pq nl p.
 Proof. unfold spell. destruct (gb || pq); [|reflexivity]. now apply (pre_idem_len gb pq nl (length p)). Qed.
+
+(* posix-extended: only a "{" is ever followed by something new (the lower bound of an interval that has none) *)
+Lemma xopen_no_brace_len : forall n s q, length s <= n -> forallb (fun c => negb (c =? c_lbrace)) s = true -> xopen q s = s.
+Proof.
+  induction n as [|n IH]; intros s q Hn Hs.
+  - destruct s; [destruct q; reflexivity|cbn in Hn; lia].
+  - destruct s as [|c s]; [destruct q; reflexivity|]. cbn [length] in Hn. assert (Hl : length s <= n) by lia.
+    cbn [forallb] in Hs. apply andb_true_iff in Hs as [Hc Hs]. apply negb_true_iff in Hc.
+    destruct q as [| |mc mr|d prev]; cbn [xopen].
+    + destruct (c =? c_bs); [now rewrite IH|]. destruct (c =? c_lb); [now rewrite IH|]. rewrite Hc. now rewrite IH.
+    + now rewrite IH.
+    + destruct (mc && (c =? c_caret)); [now rewrite IH|]. destruct (mr && (c =? c_rb)); [now rewrite IH|].
+      destruct (c =? c_rb); [now rewrite IH|]. destruct (c =? c_lb); [|now rewrite IH].
+      destruct s as [|d s2]; [reflexivity|]. cbn [length] in Hl. cbn [forallb] in Hs. apply andb_true_iff in Hs as [Hd Hs2].
+      destruct ((d =? c_colon) || (d =? c_dot) || (d =? c_eq)).
+      * rewrite IH; [reflexivity|lia|exact Hs2].
+      * rewrite IH; [reflexivity|cbn [length]; lia|cbn [forallb]; now rewrite Hd, Hs2].
+    + destruct (prev && (c =? c_rb)); now rewrite IH.
+Qed.
+Theorem xopen_no_brace p : forallb (fun c => negb (c =? c_lbrace)) p = true -> xopen XT p = p.
+Proof. apply (xopen_no_brace_len (length p)). apply le_n. Qed.
